@@ -87,3 +87,78 @@ Proof.
     cbn [selector_trait t_name t_items flat_map print_titem app]. rewrite String.eqb_refl, !toks_eqb_refl. reflexivity.
   - rewrite (target_names _ _ _ _ dynamic_receiver_name), str_list_eqb_refl. reflexivity.
 Qed.
+
+(** ** impl side: [#[entrait] impl Trait for Type] *)
+Lemma print_arguments_entrait_t params : exists r, print_arguments true params = [pc "<"; TId "EntraitT"] ++ r.
+Proof.
+  unfold print_arguments. cbn [app]. destruct (map arg_of_param params) as [|x xs]; eexists; cbn [join app]; reflexivity.
+Qed.
+
+Lemma impl_block_mode fns mode : detect_trait_dependency_mode MImplBlock fns = Ok mode -> mode = MGeneric.
+Proof. unfold detect_trait_dependency_mode. destruct (first_concrete fns); [discriminate|]. intros H. injection H as <-. reflexivity. Qed.
+
+(** the generated impl block of an [#[entrait] impl]: [impl<EntraitT: .., P..> Trait<EntraitT, P..> for Type { fn m(..) { Self::m(__impl, args)[.await] } .. }]
+    next to the inherent [impl Type { the user's items }] *)
+Lemma c07_impl_expansion v attr h tp st body sigs sf items :
+  expand_items v attr (InImpl h tp st body sigs sf) = Ok items ->
+  exists bitems fl inh im r,
+    split_body false sigs body = Ok (bitems, fl) /\
+    items = [IImpl inh; IImpl im] /\
+    i_self inh = st /\ i_trait inh = None /\ i_items inh = map iitem_of_body_item bitems /\
+    i_self im = st /\ i_trait im = Some ((tp ++ [pc "<"; TId "EntraitT"]) ++ r) /\
+    only_impl_fns im = true /\
+    bodies_ok true false (src_names_async (body_fns bitems)) (impl_fns im) = true.
+Proof.
+  intros H.
+  destruct (expand_impl_inv _ _ _ _ _ _ _ _ _ H) as (_ & bitems & fl & a & fns0 & tg & mode & ib & Hs & Ha & Hz & Hm & Hib & ->).
+  cbv zeta in Hz, Hib, Hm. apply impl_block_mode in Hm. subst mode.
+  destruct (gen_impl_block_fns _ _ _ _ _ _ _ _ _ Hib) as (argss & Fa & Hfns & Honly & _ & Hself & _ & Htr).
+  destruct (print_arguments_entrait_t (tg_params tg)) as (r & Hr).
+  exists bitems, fl. do 2 eexists. exists r.
+  split; [exact Hs|]. split; [reflexivity|]. cbn [i_self i_trait i_items].
+  split; [reflexivity|]. split; [reflexivity|]. split; [reflexivity|].
+  split; [rewrite Hself; destruct (ia_kind a); reflexivity|].
+  split; [rewrite Htr; destruct (ia_kind a); rewrite Hr, app_assoc; reflexivity|].
+  split; [exact Honly|].
+  rewrite Hfns, src_names_async_map.
+  pose proof (with_cfg_attrs_fn_ok _ _ _ _ (body_fns bitems) (analyze_all_fn_ok _ _ _ _ _ _ Hz)) as Fk.
+  destruct (ia_kind a).
+  - exact (bodies_ok_all (IStatic st) MImplBlock _ _ _ _ argss Fk Fa).
+  - exact (bodies_ok_all (IDynamic st) MImplBlock _ _ _ _ argss Fk Fa).
+Qed.
+
+Lemma c07_impl_view v attr h tp st body sigs sf items :
+  expand_items v attr (InImpl h tp st body sigs sf) = Ok items ->
+  good (view_C07 (mkCtx v attr (InImpl h tp st body sigs sf)) items).
+Proof.
+  intros H.
+  destruct (c07_impl_expansion _ _ _ _ _ _ _ _ _ H) as (bitems & fl & inh & im & r & Hs & -> & I1 & _ & _ & M1 & M2 & M3 & M4).
+  unfold view_C07, good. cbn [x_input source_fns]. rewrite Hs, parts_impl. cbn [decided v_app v_det v_holds].
+  intros _. split; [reflexivity|]. rewrite M3, M4, M1, I1, M2, !toks_eqb_refl, is_prefix_app. reflexivity.
+Qed.
+
+(** ** the view *)
+Lemma c07_view v attr i items :
+  expand_items v attr i = Ok items -> good (view_C07 (mkCtx v attr i) items).
+Proof.
+  intros H. destruct i as [h s body|h|h t|h|h tp st body sigs sf|h|h name body sigs sf|h|]; try discriminate H.
+  - unfold view_C07, good. cbn. discriminate.
+  - apply c07_trait_view. exact H.
+  - apply c07_impl_view. exact H.
+  - unfold view_C07, good. cbn [x_input source_fns]. destruct (split_body true sigs body) as [[l fl]| | |]; cbn; discriminate.
+Qed.
+
+(** the forwarding call with a delegation target, spelled out *)
+Lemma c07_call_by_trait a ca s it del :
+  ta_impl_trait a = Some it -> ta_delegate a = Some (ByTrait del) ->
+  c06_call a ca s =
+  [pc "<"; TId "EntraitT"; pc ":"; pc ":"; TId "Target"; TId "as"; TId it; pc "<"; TId "EntraitT"; pc ">"; pc ">"; pc ":"; pc ":";
+   TId (s_name s); TG Paren ([TId "self"; comma] ++ join [comma] (map (fun n => [TId n]) (typed_names s)))].
+Proof. intros H1 H2. unfold c06_call. rewrite H1, H2. reflexivity. Qed.
+
+Lemma c07_bound_by_trait a ca name g it del :
+  ta_impl_trait a = Some it -> ta_delegate a = Some (ByTrait del) ->
+  c06_bound a ca name g =
+  [TId "EntraitT"; pc ":"; TId del; pc "<"; TId "EntraitT"; pc ">"; pc "+"; pc ":"; pc ":"; TId "core"; pc ":"; pc ":"; TId "marker";
+   pc ":"; pc ":"; TId "Sync"; pc "+"; pc "'"; TId "static"].
+Proof. intros H1 H2. unfold c06_bound. rewrite H1, H2. reflexivity. Qed.
